@@ -275,6 +275,29 @@ def gen_case(rng, spawner='POPEN'):
             if rng.random() < 0.3:
                 # ... and its run-time limit expires in the same window
                 t['timeout'] = max(0.12, t['cancel_at'])
+    if spawner == 'POPEN' and rng.random() < 0.2:
+        # tasks with a start-up limit: their launch scripts report "started"
+        # over the control channel (here: the harness does, at the scripted
+        # time, for all of them in one burst - as the ranks of one bulk do);
+        # the limit then ends, unless a run-time limit takes over
+        cands = [t for t in tasks if not t['poison'] and not t['cancel']
+                 and not t['timeout'] and t['ending'] != 'long']
+        if len(cands) < 2:
+            for _ in range(2):
+                tasks.append({'uid': 't.%d' % len(tasks), 'ending': 'ok',
+                              'dur': rng.choice([0.2, 0.3]), 'code': 0,
+                              'sig': 'TERM', 'cancel': None, 'cancel_at': None,
+                              'timeout': 0.0, 'poison': None, 'bulk': 0})
+            cands = tasks[-2:]
+        b = cands[0]['bulk']
+        for t in cands[:3]:
+            t.update({'startup': 'reported', 'bulk': b,
+                      'dur': max(t['dur'], 0.2)})
+        # a later task with a run-time limit which does not end on its own
+        tasks.append({'uid': 't.%d' % len(tasks), 'ending': 'long', 'dur': 0,
+                      'code': 0, 'sig': 'TERM', 'cancel': None,
+                      'cancel_at': None, 'timeout': 0.25, 'poison': None,
+                      'bulk': b + 2})
     return {'seed'   : rng.randint(0, 2 ** 30),
             'spawner': spawner,
             'tasks'  : tasks,
@@ -328,9 +351,19 @@ class ExecSim(object):
             if self.perturb.note:
                 self.notes.append(self.perturb.note)
 
+        # exceptions which end a thread of the executor
+        self.thread_errors = list()
+        self._old_hook = mt.excepthook
+
+        def hook(args, _self=self):
+            _self.thread_errors.append((getattr(args.thread, 'name', '?'),
+                                        repr(args.exc_value)))
+        mt.excepthook = hook
+
         self.ex   = Executor(self.env, start=False)
         comp      = self.ex.comp
         self.comp = comp
+        comp.rp_ctrl = '/bin/true'     # the harness reports task start-up
         if case['spawner'] == 'NOOP':
             comp._delay = 0.02
         self._install_poison(comp)
@@ -458,8 +491,12 @@ class ExecSim(object):
             exe = '/bin/sh'
             if case['spawner'] == 'NOOP':
                 exe, args = '/bin/sleep', [str(min(t['dur'], 0.3))]
+            kw = dict()
+            if t.get('startup'):
+                kw['startup_timeout'] = 3.0
             tds[t['uid']] = exec_task(t['uid'], sbox, executable=exe,
-                                      arguments=args, timeout=t['timeout'])
+                                      arguments=args, timeout=t['timeout'],
+                                      **kw)
 
         early = [t['uid'] for t in case['tasks']
                  if t['cancel'] == 'before_intake']
@@ -477,12 +514,24 @@ class ExecSim(object):
                 if t['bulk'] == b and t['cancel_at'] is not None:
                     events.append((0.15 * b + t['cancel_at'], 'cancel',
                                    [t['uid']]))
+            started = [t['uid'] for t in case['tasks']
+                       if t['bulk'] == b and t.get('startup') == 'reported']
+            if started:
+                events.append((gap * b + 0.12, 'startup', started))
         for when, what, uids in sorted(events, key=lambda e: e[0]):
             dt = when - (time.time() - t0)
             if dt > 0:
                 _real_sleep(dt)
             if what == 'bulk':
                 self.env.put(rpc.AGENT_EXECUTING_QUEUE, [tds[u] for u in uids])
+            elif what == 'startup':
+                # what `$RP_CTRL <sid> task_startup_done uid=<uid>` of the
+                # tasks' scripts sends
+                for u in uids:
+                    self.env.publish(rpc.CONTROL_PUBSUB,
+                                     {'cmd': 'task_startup_done',
+                                      'arg': {'uid': u}})
+                self.hits.add('startup_reported')
             else:
                 self.cancel(uids)
                 for u in uids:
@@ -515,6 +564,17 @@ class ExecSim(object):
         else:
             self.notes.append('watchdog')
         return self.records()
+
+    def dead_threads(self):
+        '''threads of the executor which are not running any more although
+        the component was not stopped'''
+        dead = list()
+        for attr in ('_watcher', '_to_thread', '_collector'):
+            t = getattr(self.comp, attr, None)
+            if isinstance(t, mt.Thread) and not t.is_alive() and \
+                    not self.comp._term.is_set():
+                dead.append(attr)
+        return dead
 
     def _idle_noise(self):
         '''the watcher publishes an empty unschedule list every 50 ms'''
@@ -623,6 +683,7 @@ class ExecSim(object):
                 except OSError:
                     pass
         finally:
+            mt.excepthook = self._old_hook
             sys.setswitchinterval(self._old_switch)
             m_popen.sp   = _real_sp
             m_ebase.time = time
